@@ -218,9 +218,59 @@ def s5(run, project):
     if f is None or g is None:
         raise AnalysisError("C09: separate_events / events_to_objs not found")
     loops = [s for s in f.body if isinstance(s, ast.For)]
-    if len(loops) != 1 or not isinstance(loops[0].target, ast.Name):
+    if s5_slices(run, mod, f):
+        loops = None
+    elif len(loops) != 1 or not isinstance(loops[0].target, ast.Name):
         raise AnalysisError("C09: separate_events loop not found")
-    lp = loops[0]
+    if loops is not None:
+        s5_loop(run, project, mod, f, loops[0])
+    s5_rest(run, project, mod, g)
+
+
+def s5_slices(run, mod, f):
+    """the index form of separate_events: `starts` = the positions of the root events (and position 0), each message is the
+    slice from its start to the next start, the last one to the end.  Recognised exactly; returns False for any other form."""
+    from ..pattern import match
+    body = [s_ for s_ in f.body if not (isinstance(s_, ast.Expr) and isinstance(s_.value, ast.Constant))]
+    par = f.args.args[0].arg
+    if len(body) in (3, 4) and isinstance(body[0], ast.Assign) and norm(body[0].value) in (f"list({par})", f"list(iter({par}))"):
+        src = norm(body[0].targets[0])
+        body = body[1:]
+    else:
+        return False
+    if not (isinstance(body[0], ast.Assign) and isinstance(body[0].value, ast.ListComp) and isinstance(body[-1], ast.For) and not body[-1].orelse
+            and all(isinstance(x, ast.Assign) for x in body[1:-1])):
+        return False
+    lc, S_ = body[0].value, norm(body[0].targets[0])
+    g0 = lc.generators[0] if len(lc.generators) == 1 else None
+    if g0 is None or not (isinstance(g0.target, ast.Tuple) and len(g0.target.elts) == 2 and norm(g0.iter) == f"enumerate({src})" and len(g0.ifs) == 1):
+        return False
+    i_, e_ = (norm(x) for x in g0.target.elts)
+    lp = body[-1]
+    if not (isinstance(lp.iter, ast.Call) and norm(lp.iter.func) == "zip" and len(lp.iter.args) == 2 and norm(lp.iter.args[0]) == S_):
+        return False
+    ends = lp.iter.args[1]
+    end_node = lp
+    if isinstance(ends, ast.Name) and len(body) == 3 and norm(body[1].targets[0]) == ends.id:
+        ends, end_node = body[1].value, body[1]
+    m = match(ends, f"{S_}[1:] + [M_end]")
+    ok_loop = isinstance(lp.target, ast.Tuple) and len(lp.target.elts) == 2 and len(lp.body) == 1 \
+        and norm(lp.body[0]) == f"yield {src}[{norm(lp.target.elts[0])}:{norm(lp.target.elts[1])}]"
+    if norm(lc.elt) != i_ or m is None or not ok_loop:
+        return False
+    test = norm(g0.ifs[0])
+    want = (f"{i_} == 0 or isinstance({e_}, MarshalEvent) and {e_}.path == ROOT_PATH", f"{i_} == 0 or (isinstance({e_}, MarshalEvent) and {e_}.path == ROOT_PATH)")
+    run.ob("S5", test in want, "separate_events (index form): a message starts at position 0 and at every root event",
+           f"the start positions are selected by `{test}`: messages must be cut exactly at a MarshalEvent whose path is the root path",
+           module=mod, node=g0.ifs[0], func=f.name, construct="separate_events cut")
+    end = norm(m["M_end"])
+    run.ob("S5", end in ("None", f"len({src})"), "separate_events (index form): the last message reaches to the end of the events",
+           f"the last message is sliced up to `{end}`: its trailing event(s) are dropped (or the slice is empty)", module=mod,
+           node=end_node, func=f.name, construct="separate_events flush")
+    return True
+
+
+def s5_loop(run, project, mod, f, lp):
     ev = lp.target.id
     S = paths.Summariser(mod, f)
     top = S.paths()
@@ -279,6 +329,10 @@ def s5(run, project):
                f"after the loop{' with a pending message' if t else ''} the function does {after}: trailing message is not yielded"
                if t or t is None else f"an empty trailing message is produced ({after})", module=mod, node=p.node or f, func=f.name,
                construct="separate_events flush")
+
+
+def s5_rest(run, project, mod, g):
+    f = mod.functions().get("separate_events")
     rp = [s for s in mod.tree.body if isinstance(s, ast.ImportFrom) and any(a.name == "ROOT_PATH" for a in s.names)]
     pm = project.module("tpmstream.common.path")
     rdef = [s for s in pm.tree.body if isinstance(s, ast.Assign) and norm(s.targets[0]) == "ROOT_PATH"]
